@@ -215,3 +215,26 @@ class syminfo_iter:
     each_yield = ["value.entry == P('Elf_Sunw_Syminfo', self.stream.B, self.header.sh_offset + ($n + 1) * self.header.sh_entsize)"]
     ensures = ["$n == max(0, self.header.sh_size // self.header.sh_entsize - 1)"]
     may_raise = ["ELFParseError", "OverflowError"]
+
+
+SysvParams = Rec(nbuckets=U32, nchains=U32, buckets=ListOf(U32), chains=ListOf(U32))
+SysvTabL = Obj('ELFHashTable', elffile=_EF(), _symboltable=SymTabShared, params=SysvParams)
+
+
+@contract("elftools/elf/hash.py", "ELFHashTable.get_symbol", props=["C03"])
+class sysv_get_symbol:
+    """gABI hash lookup: start at the bucket of the name's hash, follow the chain array until index 0; a symbol is
+    returned only if it bears the name; every index on the chain is examined (its symbol is symbol #index of the
+    table) until a match or the end of the chain.  Termination on a cyclic chain is not claimed (a well-formed table
+    has none)."""
+    params = dict(self=SysvTabL, name=Str)
+    requires = ["len(self.params.buckets) == self.params.nbuckets", "len(self.params.chains) == self.params.nchains",
+                "self._symboltable.structs.elfclass == self._symboltable.elffile.elfclass"]
+    returns = Opt(SymRet)
+    ghost = {"$B": "self.elffile.stream.B", "$T": "self._symboltable"}
+    loops = {0: dict(ghost_init={"$cur": "symndx"}, ghost_update={"$cur": "symndx"}, ghost_step={"$i": "symndx"},
+                     invariant=["symndx == $cur", "$k > 0 or symndx == self.params.buckets[hval]", "hval >= 0 and hval < self.params.nbuckets"],
+                     step=["sym.entry == P('Elf_Sym', $B, $T.header.sh_offset + $i * $T.header.sh_entsize)", "sym.name != name",
+                           "symndx == self.params.chains[$i]", "$i != 0"])}
+    ensures = ["result is None or result.name == name", "self.params.nbuckets != 0 or result is None"]
+    may_raise = ["ELFParseError", "OverflowError", "UnicodeDecodeError", "IndexError"]
